@@ -669,12 +669,20 @@ func (c *compiler) evalInfixExpression(node *ast.InfixExpression) (interface{}, 
 	case string:
 		return c.stringsOperator(t, rres, node.Operator)
 	case int64:
-		if r, ok := rres.(int64); ok {
+		switch r := rres.(type) {
+		case int64:
 			return c.intsOperator(int(t), int(r), node.Operator)
+		case int:
+			// the result of an int64 operation is an int: a + b + c must
+			// go on working, and so must id == 5
+			return c.intsOperator(int(t), r, node.Operator)
 		}
 	case int:
-		if r, ok := rres.(int); ok {
+		switch r := rres.(type) {
+		case int:
 			return c.intsOperator(t, r, node.Operator)
+		case int64:
+			return c.intsOperator(t, int(r), node.Operator)
 		}
 	case float64:
 		if r, ok := rres.(float64); ok {
